@@ -286,14 +286,14 @@ func ToCommandLine(wf WireFormat, resolveIds bool) (rule string, err error) {
 					rhs = strconv.Itoa(exitCode)
 				}
 			case uidField, euidField, suidField, fsuidField, auidField, objectUIDField:
-				rhs = strconv.Itoa(int(int32(value)))
+				rhs = formatID(value)
 				if resolveIds {
 					if user, err := user.LookupId(rhs); err == nil {
 						rhs = user.Username
 					}
 				}
 			case gidField, egidField, sgidField, fsgidField, objectGIDField:
-				rhs = strconv.Itoa(int(int32(value)))
+				rhs = formatID(value)
 				if resolveIds {
 					if group, err := user.LookupGroupId(rhs); err == nil {
 						rhs = group.Name
@@ -818,7 +818,20 @@ func getUID(uid string) (uint32, error) {
 	return uint32(v), nil
 }
 
+// formatID renders a uid or gid the way auditctl does: -1 for the unset ID
+// and the unsigned decimal value otherwise.
+func formatID(id uint32) string {
+	if id == math.MaxUint32 {
+		return "-1"
+	}
+	return strconv.FormatUint(uint64(id), 10)
+}
+
 func getGID(gid string) (uint32, error) {
+	if gid == "unset" || gid == "-1" {
+		return 4294967295, nil
+	}
+
 	v, err := strconv.ParseUint(gid, 10, 32)
 	if err != nil {
 		if !errors.Is(err, strconv.ErrSyntax) {
